@@ -549,6 +549,17 @@ def any_spec(draw, families=("nlp", "qp", "degenerate"), max_n=5, max_m=3, magni
         s = draw(unbounded_spec(max_n=min(max_n, 4)))
     elif fam == "patternvar":
         s = draw(patternvar_spec(max_n=min(max_n, 4)))
+    elif fam == "intbox":
+        # every variable boxed by integer-valued bounds, handed over as integer-typed arrays
+        s = draw(nlp_spec(max_n=max_n, max_m=max_m))
+        n = s["n"]
+        lo = [draw(st.integers(-3, 3)) for _ in range(n)]
+        s["lb"] = [float(v) for v in lo]
+        s["ub"] = [float(v + draw(st.integers(0, 6))) for v in lo]
+        s["bounds_dtype"] = "int"
+        s["xf"] = [float(min(max(round(t), a), b)) for t, a, b in zip(s["xf"], s["lb"], s["ub"])]
+        s["family"] = "intbox"
+        return s
     else:
         raise ValueError(fam)
     if magnify and draw(st.integers(0, 3)) == 0:
